@@ -776,6 +776,9 @@ func main() {
 		c.Fail("worker-death:"+runner.FatalFrame(d.Stderr), "no-crash", 0, map[string]any{"kind": "death", "item": d.Item, "reason": d.Reason}, d.Stderr)
 	})
 
+	g1c := catchVarTable(c)
+	c.Set("g1c_cells", g1c)
+
 	g2 := <-g2done
 	g2.report(c)
 
@@ -802,8 +805,8 @@ func main() {
 			c.HarnessError("vacuous: no generated program exercised %q", k)
 		}
 	}
-	c.Finish(total+int64(g2.Cells), execs+int64(g2.Cells), total+int64(g2.Cells),
-		fmt.Sprintf("G1: complete cross product of try/catch/finally structures (families %v) x 6 contexts vs reference interpreter; G2: %d real CLI subprocess cells; distinct = programs + cells; outcomes = distinct (exit path x finally, dispatch) situations covered", families, g2.Cells))
+	c.Finish(total+int64(g2.Cells+g1c), execs+int64(g2.Cells+g1c), total+int64(g2.Cells+g1c),
+		fmt.Sprintf("G1: complete cross product of try/catch/finally structures (families %v) x 6 contexts vs reference interpreter; G1c: 6-cell object-ness table of the catch variable; G2: %d real CLI subprocess cells; distinct = programs + cells; outcomes = distinct (exit path x finally, dispatch) situations covered", families, g2.Cells))
 }
 
 func replay(c *ev.Check) {
@@ -829,6 +832,16 @@ func replay(c *ev.Check) {
 		fmt.Println(detailOf(exp, got))
 		if clause != "" {
 			c.Fail(key, clause, 0, cs, detailOf(exp, got))
+		}
+	case "g1c":
+		var cell objCell
+		b, _ := json.Marshal(raw)
+		json.Unmarshal(b, &cell)
+		fmt.Println(cell.Script)
+		got, ok := objRun(cell)
+		fmt.Printf("expected %q\nobserved %q\n", cell.Want, got)
+		if !ok {
+			c.Fail(key, "catchvar-object", 0, cell, fmt.Sprintf("expected %q observed %q", cell.Want, got))
 		}
 	case "g2":
 		var cell g2Cell
